@@ -394,12 +394,24 @@ func (f *Frame) callByContract(v ssa.Value, in ssa.Instruction, sig *types.Signa
 	env.heap = st.heap
 	env.oldHeap = pre
 	env.setResults(sig, rs)
+	// ghost (trace) state named by the callee's contract is the callee's own: see SpecEnv.ghostLocal
+	callerGhosts := c.Kind == "func" && callee != nil && callee.Blocks != nil
+	if callerGhosts {
+		env.ghostLocal = map[string]Val{}
+	}
+	var posts []string
 	for _, cl := range c.ClausesOf("ensures") {
 		t, err := env.evalBool(cl.Text)
 		if err != nil {
 			u.W.fail("%s:%d: ensures of %s: %v", cl.File, cl.Line, c.Key, err)
 			continue
 		}
+		posts = append(posts, t)
+	}
+	if callerGhosts {
+		f.foldCalleeGhosts(st, callee, env.ghostLocal)
+	}
+	for _, t := range posts {
 		u.assume(st.cur, t)
 	}
 	// `assume` clauses: facts about the callee that its own verification does not establish
@@ -462,6 +474,80 @@ func (f *Frame) inline(v ssa.Value, callee *ssa.Function, args []Val, st *state,
 	g.run(st.heap, st.cur)
 	f.finishInline(v, g, st)
 	f.recordTrace(tr, st, args, f.inlineResults)
+}
+
+// foldCalleeGhosts: after a call by contract to a module function, the caller's trace state
+// advances by what happened inside the call. For every trace tag the callee may fire (statically,
+// transitively) or that its contract names: the caller's counter grows by the callee's count (the
+// per-call constant bound in local, or an unknown non-negative number), the "last" values are the
+// callee's if it fired at least once, sequences are unknown.
+func (f *Frame) foldCalleeGhosts(st *state, callee *ssa.Function, local map[string]Val) {
+	u := f.u
+	tags := map[string]bool{}
+	for t := range u.W.tagsFiredBy(callee) {
+		tags[t] = true
+	}
+	for _, tr := range u.W.Traces {
+		for name := range local {
+			for _, pre := range []string{"n", "t", "recv", "arg", "ret", "seq", "rseq", "aseq", "bseq"} {
+				if name == pre+tr.Tag {
+					tags[tr.Tag] = true
+				}
+			}
+		}
+	}
+	if len(tags) == 0 {
+		return
+	}
+	u.scalar("$g.clock", "Int")
+	oldClock := u.hget(st.heap, "$g.clock")
+	nc := u.fresh("g.clock", "Int")
+	u.emit("(assert (>= " + nc + " " + oldClock + "))")
+	u.hset(st.heap, "$g.clock", nc)
+	var ts []string
+	for t := range tags {
+		ts = append(ts, t)
+	}
+	sort.Strings(ts)
+	for _, tag := range ts {
+		u.scalar("$g.n"+tag, "Int")
+		oldN := u.hget(st.heap, "$g.n"+tag)
+		var cnt string
+		if v, ok := local["n"+tag]; ok {
+			cnt = v.T
+		} else {
+			cnt = u.fresh("callee.g.n"+tag, "Int")
+			u.emit("(assert (>= " + cnt + " 0))")
+		}
+		u.hset(st.heap, "$g.n"+tag, "(+ "+oldN+" "+cnt+")")
+		for _, pre := range []string{"t", "recv", "arg", "ret"} {
+			gi, ok := u.W.GhostSorts[pre+tag]
+			if !ok {
+				continue
+			}
+			u.scalar("$g."+pre+tag, gi.sort(u))
+			oldV := u.hget(st.heap, "$g."+pre+tag)
+			var nv string
+			if v, ok := local[pre+tag]; ok && pre != "t" {
+				nv = v.T
+			} else {
+				nv = u.fresh("g."+pre+tag, gi.sort(u))
+			}
+			u.hset(st.heap, "$g."+pre+tag, ite("(>= "+cnt+" 1)", nv, oldV))
+		}
+		for _, pre := range []string{"seq", "rseq", "aseq", "bseq"} {
+			gi, ok := u.W.GhostSorts[pre+tag]
+			if !ok {
+				continue
+			}
+			u.scalar("$g."+pre+tag, gi.sort(u))
+			oldS := u.hget(st.heap, "$g."+pre+tag)
+			ns := u.fresh("g."+pre+tag, gi.sort(u))
+			// the events recorded before the call keep their place in the sequence
+			u.emit(fmt.Sprintf("(assert (forall ((i Int)) (! (=> (<= i %s) (= (select %s i) (select %s i))) :pattern ((select %s i)))))", oldN, ns, oldS, ns))
+			u.hset(st.heap, "$g."+pre+tag, ns)
+		}
+	}
 }
 
 // cloAlt: one way a function-typed phi can get its value (a closure made on that edge, or nil).
@@ -695,6 +781,11 @@ func (f *Frame) appendOp(v ssa.Value, c *ssa.CallCommon, st *state) {
 	var addLen string
 	var addAt func(j string) string
 	y := f.val(c.Args[1])
+	if _, isSl := c.Args[1].Type().Underlying().(*types.Slice); isSl {
+		yv := u.fresh("app.arg", "Slice")
+		u.emit("(assert (= " + yv + " " + y.T + "))")
+		y.T = yv
+	}
 	switch c.Args[1].Type().Underlying().(type) {
 	case *types.Slice:
 		addLen = "(sl.len " + y.T + ")"
